@@ -24,6 +24,9 @@ const (
 
 func StartSign(config *config.Config, signers []party.ID, message []byte, pl *pool.Pool) protocol.StartFunc {
 	return func(sessionID []byte) (round.Session, error) {
+		if err := config.Validate(); err != nil {
+			return nil, fmt.Errorf("sign.Create: %w", err)
+		}
 		group := config.Group
 
 		// this could be used to indicate a pre-signature later on
